@@ -123,7 +123,8 @@ def make_case(tier, seed, index):
             else:
                 connects.append({"k": "ok", "d": 0.0})
         idle = [rnd.choice([0.0, 0.0, 5.0, 10.0]) for _ in calls]
-        return {"kind": "api", "family": fam, "transport": tr, "timeout": tau, "retries": r, "keep_alive": ka,
+        entry = rnd.choice([None, None, "connect", "discover" if tr == "udp" else "connect"])
+        return {"kind": "api", "entry": entry, "family": fam, "transport": tr, "timeout": tau, "retries": r, "keep_alive": ka,
                 "calls": calls, "idle": idle, "faults": faults, "connects": connects}
     # identification data
     which = rnd.choice(["discover", "connect:ET", "connect:DT", "connect:ES", "discover:modbus"])
@@ -234,8 +235,25 @@ def run_api(case):
     inv = _make(goodwe, fam, tr, case["timeout"], case["retries"], case["keep_alive"])
     recs = []
 
+    holder = {"inv": inv}
+
     async def main():
+        inv = holder["inv"]
+        if case.get("entry"):
+            # obtain the object through the public entry point, under the same fault script
+            if case["entry"] == "connect":
+                rec = await C.do_call(world, "connect", lambda: goodwe.connect(C.HOST, C.port_of(tr), fam, 0, case["timeout"],
+                                                                              case["retries"]))
+            else:
+                rec = await C.do_call(world, "discover", lambda: goodwe.discover(C.HOST, C.UDP_PORT, case["timeout"],
+                                                                               case["retries"]))
+            recs.append((case["entry"], rec))
+            if rec["outcome"] == "result" and rec["value"] is not None:
+                inv = rec["value"]
+                inv.set_keep_alive(case["keep_alive"])
         for name, idle in zip(case["calls"], case["idle"]):
+            if name.split(":")[0] in ("read_sensor", "read_setting") and type(inv).__name__ != fam:
+                continue   # discover() may have detected another family: ids differ
             recs.append((name, await C.do_call(world, name, _call(inv, name))))
             if idle:
                 await asyncio.sleep(idle)
